@@ -388,6 +388,31 @@ EXTRA = {
  "C11": dict(
   note=" Degenerate-payload mutations (empty BIT STRING, empty SEQUENCEs, emptied extnValue, empty RDN / attribute value) are 'free' cases: any coherent outcome, no panic."),
 }
+EXTRA2 = {
+ "C02": dict(
+  technique="; history specification ChainAdmissionLog.tla (a log serving requests while the clock advances; JudgedAlone, NothingRemembered, ConfigFixed, Repeatable, WhenShape), model-checked exhaustively on a small instance and refuted by TLC on two negative instances (clock of the first request pinned; verdict memo keyed by leaf); TLC-simulated walks replayed under virtual time (go1.26 synctest, -race) on fresh instances and on one re-used options value per log: in order, reversed at the final instant, concurrently; argument, options and trusted-pool purity asserted",
+  note=" Expiry filters are judged at the instant of each request incl. now == NotAfter on configured instances (named clause PinnedTime); the time/history dimension is sampled (300 walks quick, 3000 thorough); one model instant is one second."),
+ "C05": dict(
+  technique="; SigVerifyHist.tla: verification as a function of its arguments over sessions (Function, ArgsKept, DestFree) with an explicit coarse-memo model and exposure bookkeeping; sessions replayed on caller objects re-used in place and long-lived verifiers, sequentially, then a sample in parallel and on shared objects under -race",
+  note=" The history layer is simulation (TLC random walks; every one-component memo must be exposed by the walk set of each run) plus an exhaustive 2-call configuration in the thorough tier; named clauses LeafTimestampAdjusted (LogInfo.VerifySCTSignature writes the SCT's timestamp into the caller's leaf, as documented) and LeafHashFunction."),
+ "C10": dict(
+  technique="; TLC-simulated call histories (Asn1LaxHist.tla, destination-slot model) replayed into the fork and encoding/asn1 with re-used destinations and buffers, a sample concurrently under -race; time forms (zone offset x 1950/2050 boundary) in the case space; Marshal agreement with encoding/asn1 on every decoded value",
+  note=" Unmarshal/Marshal are checked as functions of their arguments on 600 (thorough 8000) random histories per run; named clauses AbsentOptionalKeeps, TagByWrittenYear / ZoneOffsetRoundTrip, MarshalAgrees (SET OF excepted); nothing is asserted about the destination of a rejected call."),
+ "C11": dict(
+  technique="; extension ORDER as a case dimension (all permutations for <= 3/4 extensions, six schemes beyond; UnhandledIsOrderFree); history machine (Functional, PerCertificate, ArgsIntact) checked exhaustively on 2-call histories and TLC random walks over equal-layout neighbours in fresh / own / shared buffers replayed serially and on 8 goroutines under -race; oracle-free purity law (b after a in one buffer, twice, later = alone) on all twelve entry points",
+  note=" The history law is tautological in the model (no state by construction): its value is the generated sequences, the expected identities and the relation-coverage vacuity guard."),
+ "C12": dict(
+  technique="; the adversarial server has a memory (replays earlier bodies or signature bytes over other tree heads / chains / kinds: NoCreditForHistory); three-call histories replayed on one long-lived client and on a fresh client per call (results must agree); client key options der / pem / bothSame / bothDifferent (named clause DERWins)"),
+ "C15": dict(
+  technique="; history layer LogConfigHist.tla: TLC-drawn sessions of validations in one process (frozen STH presented component by component with ideal signatures; ghost-checked exposure of every verdict-relevant component as stale accept and stale reject) replayed sequentially into the three validators, the loaders and SetUpInstance / get-sth; named spellings of a non-verifying frozen STH (timestamp, size, root, signature or key altered, genuine signature bytes)"),
+ "C20": dict(
+  text=" Empty get-entries pages are a counted fault (emptyPage; named clauses EmptyPageHandedOn / EmptyRequestRefused: the reference destination refuses a request without leaves as Trillian v1.7.1 does), PosCovered (a pass reported successful leaves no hole below the position handed on) is part of Safety, and trace validation names abandoned ranges through the defect step AbandonRanges (convicted by Complete at Return nil and NoGap at the next GetRoot).",
+  note=" Over-long pages are not modelled; trace validation also accepts dropping an empty batch and asking again (SkipEmpty)."),
+}
+for _pid, _e in EXTRA2.items():
+    EXTRA.setdefault(_pid, {})
+    for _k, _v in _e.items():
+        EXTRA[_pid][_k] = EXTRA[_pid].get(_k, "") + _v
 for _pid, _e in EXTRA.items():
     for _k, _v in _e.items():
         CHECKS[_pid][_k] = CHECKS[_pid][_k] + _v
